@@ -177,6 +177,8 @@ func c05(c *Ctx) {
 		c.ruleMustPass("C05.1/own-writes", f, sites(f, callTo(storeT+"SnapshotMustIncludeTxIDWithRenewalPeriod")), "snap.refInterceptor=", storeTo("Snapshot.refInterceptor"), nil, false)
 	}
 
+	c05OwnWrites(c, "C05.1/own-writes")
+
 	// ---- C05.2 every record kind is validated and counted ---------------------------------------------
 	r = "C05.2/records-validated"
 	rsType := c.namedType("embedded/store", "mvccReadSet")
@@ -414,4 +416,59 @@ func (c *Ctx) fieldsRead(rule string, t types.Type, fns []*ssa.Function, exempt 
 		}
 		c.check(read[f], rule, "validation-reads:"+key, c.pos(fns[0].Pos()), "field is read during validation", "recorded field "+key+" is never read during validation: whatever it recorded is not re-checked at commit")
 	}
+}
+
+// c05OwnWrites: OngoingTx.set records the latest EntrySpec under every mapped (index) key of the write, so that
+// reads of the transaction resolve to its own latest write; the main key always ends up in entries/transientEntries.
+func c05OwnWrites(c *Ctx, r string) {
+	f := c.mustFn(r, otxT+"set")
+	if f == nil {
+		return
+	}
+	var spec ssa.Value
+	allInstrs(f, false, func(in ssa.Instruction) {
+		if a, ok := in.(*ssa.Alloc); ok && short(a.Type().String()) == "*embedded/store.EntrySpec" {
+			spec = a
+		}
+	})
+	if spec == nil {
+		c.undecided(r, fnName(f)+":EntrySpec", "the EntrySpec built by set() was not found")
+		return
+	}
+	recMapped := func(in ssa.Instruction) bool {
+		mu, ok := in.(*ssa.MapUpdate)
+		return ok && hasFieldSuffix(desc(mu.Map), "transientEntries") && mu.Value == spec
+	}
+	maps := sites(f, callTo("embedded/store.mapKey"))
+	if len(maps) < 2 {
+		c.undecided(r, fnName(f)+":mapKey", "expected the source and target mapKey calls")
+		return
+	}
+	same := whenCond(true, func(a string) bool { return strings.HasPrefix(a, "call:bytes.Equal(param:key,") })
+	q := &pathQ{fn: f, from: maps[len(maps)-1:], to: successReturn, via: recMapped, barrier: anyEdge(same, errEdgeOf(maps[len(maps)-1]))}
+	if w := q.bypass(); w != nil {
+		c.fail(r, fnName(f)+":mapped-key-records-latest-write", c.pos(w[len(w)-1].Pos()), "a write can complete without recording its EntrySpec under the mapped (index) key: later reads of the same transaction resolve to an older write: "+c.witnessStr(w))
+	} else {
+		c.ok(r, fnName(f)+":mapped-key-records-latest-write", c.pos(f.Pos()), "every path from the key mapping to a return records the EntrySpec under the mapped key unless it equals the key")
+	}
+	// the main key: stored in entries[...] or transientEntries[...] on every successful path
+	recMain := func(in ssa.Instruction) bool {
+		if recMapped(in) {
+			return true
+		}
+		if st, ok := in.(*ssa.Store); ok && st.Val == spec {
+			if ia, ok := st.Addr.(*ssa.IndexAddr); ok {
+				if fl, _ := fieldOf(ia.X); fl == "OngoingTx.entries" {
+					return true
+				}
+			}
+		}
+		if st, ok := in.(*ssa.Store); ok {
+			if fl, _ := fieldOf(st.Addr); fl == "OngoingTx.entries" {
+				return true
+			}
+		}
+		return false
+	}
+	c.ruleMustPass(r, f, nil, "entries/transientEntries[key]=e", recMain, nil, false)
 }
